@@ -7,7 +7,7 @@ From Chum Require Export SemLaws.
 (* no recover_with anywhere (recovery turns the pending error into a reported one and starts afresh) *)
 Fixpoint norec (g : G) : bool :=
   match g with
-  | End | Empty | Any | Just _ | OneOf _ | NoneOf _ | Select _ _ | Custom _ _ | JustCfg _ | Var _ | Skip _ => true
+  | End | Empty | Any | Just _ | OneOf _ | NoneOf _ | Select _ _ | Custom _ _ | JustCfg _ | Var _ | Skip _ | Prog _ _ => true
   | Map _ a | MapWith _ a | To _ a | Ignored a | ToSpan a | ToSlice a | Filter _ a | TryMap _ _ _ a
   | TryMapWith _ _ _ a | Validate _ _ a | OrNot a | Not a | Rewind a | Labelled _ _ a | MapErr _ a
   | WithCtx _ a | MapCtx _ a | Memo _ a | Rec a | NestedIn a | WithState _ a | Padded _ a => norec a
@@ -27,6 +27,7 @@ with norec_it (i : IT) : bool :=
   | IRep a _ _ | IOrNot a | IRepCfg a _ _ _ | IIntoIter a => norec a
   | ISep a s _ _ _ _ => norec a && norec s
   | IEnum j | IMap _ j | IMapWith _ j => norec_it j
+  | IThen i j => norec_it i && norec_it j
   end
 with norec_op (o : pop) : bool :=
   match o with PInfix _ _ g _ | PPrefix _ g _ | PPostfix _ g _ => norec g end.
@@ -35,8 +36,8 @@ From Chum Require Import Extent.
 
 Lemma it_eager_norec ctx : forall i g, norec_it i = true -> it_eager i ctx = Some g -> norec g = true.
 Proof.
-  induction i as [a lo hi|a sep lo hi lead trail|j IHj|f j IHj|f j IHj|a|a lo hi ck|a]; intros g Hn H; cbn [it_eager] in H;
-    try discriminate; cbn [norec_it] in Hn; eauto.
+  induction i as [a lo hi|a sep lo hi lead trail|j IHj|f j IHj|f j IHj|a|a lo hi ck|a|i1 IHi1 i2 IHi2]; intros g Hn H; cbn [it_eager] in H;
+    try discriminate; cbn [norec_it] in Hn; eauto; try (apply andb_prop in Hn; destruct Hn; eauto; fail).
   - destruct (cfg_fails ck (val_count (cval ctx))); [|discriminate]. injection H as <-. reflexivity.
   - injection H as <-. cbn. now rewrite Hn.
 Qed.
@@ -191,7 +192,7 @@ Qed.
 Lemma it_snext_mono : forall i ctx its p r x its' r', norec_it i = true -> envok ctx -> p <= length toks ->
   it_snext toks spn run i ctx its p r = Some (x, its', r') -> step_ok p r x r'.
 Proof.
-  induction i as [a lo hi|a sep lo hi lead trail|j IHj|f j IHj|f j IHj|a|a lo hi ck|a];
+  induction i as [a lo hi|a sep lo hi lead trail|j IHj|f j IHj|f j IHj|a|a lo hi ck|a|i1 IHi1 i2 IHi2];
     intros ctx its p r x its' r' Hn He Hp H; cbn [it_snext] in H; cbn [norec_it] in Hn.
   - destruct its; try discriminate.
     destruct (rep_snext run a lo hi ctx n p r) as [[[x0 c'] r0]|] eqn:E; [|discriminate].
@@ -214,11 +215,23 @@ Proof.
       injection H as <- <- <-. exact (rep_snext_mono _ _ _ _ _ _ _ _ _ _ Hn He Hp E).
     + destruct (run (TryMap PFalse FId k Empty) ctx p r) as [[[?|] r1]|] eqn:E; try discriminate.
       injection H as <- <- <-. apply HM in E; auto. destruct E as (E1 & E2). split; [exact E1 | apply E2; reflexivity].
-  - destruct its as [| | | | |[l|]]; try discriminate.
+  - destruct its as [| | | | |[l|]|]; try discriminate.
     + destruct l; injection H as <- <- <-; (split; [apply rle_refl|exact I]).
     + destruct (run a ctx p r) as [[[[[v1 p1] e1]|] a1]|] eqn:E; try discriminate.
       * apply HM in E; auto. destruct (val_items v1); injection H as <- <- <-; (split; [apply E | exact I]).
       * injection H as <- <- <-. apply HM in E; auto. destruct E as (E1 & E2). split; [exact E1 | apply E2; reflexivity].
+  - apply andb_prop in Hn. destruct Hn as (Hn1 & Hn2).
+    destruct its as [| | | | | |sa [sb|]]; try discriminate.
+    + destruct (it_snext toks spn run i2 ctx sb p r) as [[[x0 c'] r0]|] eqn:E; [|discriminate].
+      injection H as <- <- <-. eapply IHi2; eauto.
+    + destruct (it_snext toks spn run i1 ctx sa p r) as [[[x0 c'] r0]|] eqn:E; [|discriminate].
+      pose proof (IHi1 _ _ _ _ _ _ _ Hn1 He Hp E) as (S1 & S2).
+      pose proof (it_snext_ext toks spn run HE _ _ _ _ _ _ _ _ E Hp) as X.
+      destruct x0; try (injection H as <- <- <-; split; assumption). cbn in X.
+      destruct (it_snext toks spn run i2 ctx (mk_iter i2 ctx) p0 r0) as [[[x1 c1] r1]|] eqn:E2; [|discriminate].
+      pose proof (IHi2 _ _ _ _ _ _ _ Hn2 He (proj2 X) E2) as (T1 & T2).
+      destruct x1; injection H as <- <- <-; (split; [eapply rle_trans; eauto|]); try exact I.
+      cbn in T2 |- *. eapply rge_le; [exact T2 | lia].
 Qed.
 
 Lemma sdrive_mono : forall fuel i ctx its lim acc acce p r o r' p0, norec_it i = true -> envok ctx -> p <= length toks -> p0 <= p ->
@@ -551,6 +564,8 @@ Proof.
   - (* WithState *) discriminate.
   - (* Skip *) injection H as <- <-. split; [apply rle_refl | discriminate].
   - (* ExtWrap *) discriminate.
+  - (* Prog *) destruct (prog_sem toks spn ops p [] [] p) as [[[] acc] p1]; injection H as <- <-;
+      (split; [|intros; try discriminate]); try apply rle_refl; apply ee_mono.
   - (* Padded *)
     pose proof (skip_ws_ext toks ws (length toks) p Hp) as X0.
     destruct (sem n g ctx (skip_ws toks (length toks) ws p) a) as [[[[[v1 p1] e1]|] a1]|] eqn:E1; try discriminate;
